@@ -420,7 +420,9 @@ func (acl *ACL) AuthorizeConnection(conn *net.Conn, cmd []string, command intern
 		return nil
 	}
 
-	if len(append(readKeys, writeKeys...)) > 0 {
+	// (The two lists are sub-slices of the command: appending one to the other would overwrite the
+	// arguments that follow the keys before the handler sees them.)
+	if len(readKeys)+len(writeKeys) > 0 {
 		// 7. Check if nokeys is true
 		if connection.User.NoKeys {
 			return errors.New("not authorised to access any keys")
